@@ -19,34 +19,34 @@ Definition html_span (a : Z) (s : list chr) (cursor : Z) : result (list hspan) :
     else Ok [HSpan a false (takez c_off s); HSpan a true (takez 1 (dropz c_off s)); HSpan a false (dropz (c_off + 1) s)]
   else match s with [] => Ok [] | _ => Ok [HSpan a false s] end.
 
-(* body of "for a, _cs, run in row"; kinds: 0 palette entry, 1 AttrSpec, 2 unknown name (KeyError) *)
-Fixpoint html_runs (kinds : list Z) (on_cursor_row : bool) (cx : Z) (col : Z) (row : crow) : result (list hspan) :=
+(* body of "for a, _cs, run in row" (an unknown attribute name uses the default palette entry: the
+   colours are outside this model, so every attribute is treated alike) *)
+Fixpoint html_runs (on_cursor_row : bool) (cx : Z) (col : Z) (row : crow) : result (list hspan) :=
   match row with
   | [] => Ok []
   | (a, _, run) :: rest =>
       let t_run := map trans_chr run in
-      if (match nthz kinds a with Some k => k =? 2 | None => true end) then Err KeyErrorK else
       if on_cursor_row && (col <=? cx) then
         let run_width := calc_width t_run in
         bind (if cx <? col + run_width then html_span a t_run (cx - col) else html_span a t_run (-1)) (fun sp =>
-        bind (html_runs kinds on_cursor_row cx (col + run_width) rest) (fun more => Ok (sp ++ more)))
+        bind (html_runs on_cursor_row cx (col + run_width) rest) (fun more => Ok (sp ++ more)))
       else
         bind (html_span a t_run (-1)) (fun sp =>
-        bind (html_runs kinds on_cursor_row cx col rest) (fun more => Ok (sp ++ more)))
+        bind (html_runs on_cursor_row cx col rest) (fun more => Ok (sp ++ more)))
   end.
 
-Fixpoint html_rows (kinds : list Z) (cursor : option (Z * Z)) (y : Z) (rows : list crow) : result (list (list hspan)) :=
+Fixpoint html_rows (cursor : option (Z * Z)) (y : Z) (rows : list crow) : result (list (list hspan)) :=
   match rows with
   | [] => Ok []
   | row :: rest =>
       let '(on_row, cx) := match cursor with Some (x, cy) => (y =? cy, x) | None => (false, 0) end in
-      bind (html_runs kinds on_row cx 0 row) (fun spans =>
-      bind (html_rows kinds cursor (y + 1) rest) (fun more => Ok (spans :: more)))
+      bind (html_runs on_row cx 0 row) (fun spans =>
+      bind (html_rows cursor (y + 1) rest) (fun more => Ok (spans :: more)))
   end.
 
 (* HtmlGenerator.draw_screen((cols, rows), canvas) *)
-Definition html_draw (kinds : list Z) (maxrow : Z) (rows : list crow) (cursor : option (Z * Z)) : result (list (list hspan)) :=
-  if negb (maxrow =? zlen rows) then Err ValueError else html_rows kinds cursor 0 rows.
+Definition html_draw (maxrow : Z) (rows : list crow) (cursor : option (Z * Z)) : result (list (list hspan)) :=
+  if negb (maxrow =? zlen rows) then Err ValueError else html_rows cursor 0 rows.
 
 (* ---------- wire ---------- *)
 Definition enc_span (s : hspan) : list Z :=
@@ -61,17 +61,13 @@ Definition html_case (l : list Z) : list Z :=
              | 1 :: x :: y :: r' => Some (Some (x, y), r')
              | _ => None end) with
       | Some (cur, r1) =>
-          match dec_list r1 with
-          | Some (kinds, r2) =>
-              match dec_counted dec_row r2 with
-              | Some (rows, _) =>
-                  match html_draw kinds maxrow rows cur with
-                  | Ok out => 0 :: zlen out :: flat_map enc_hrow out
-                  | Err e => [errcode e]
-                  end
-              | None => [-2]
+          match dec_counted dec_row r1 with
+          | Some (rows, _) =>
+              match html_draw maxrow rows cur with
+              | Ok out => 0 :: zlen out :: flat_map enc_hrow out
+              | Err e => [errcode e]
               end
-          | None => [-3]
+          | None => [-2]
           end
       | None => [-4]
       end
